@@ -452,6 +452,8 @@ def branch_query_scenarios(prog, pm):
         ("operation directly in an orphaned branch", [("B", "O"), ("P", "S")], {"P"}, set(), "stops"),
         ("orphaned two levels up", [("C", "O"), ("B", "O"), ("P", "O")], {"P"}, set(), "stops"),
         ("branch context not recorded (its START is still queued), parent completed", [("B", "U"), ("P", "O")], {"P"}, set(), "stops"),
+        ("surviving branch whose OWN context an earlier invocation recorded SUCCEEDED (summarised) re-traverses its body while the parent parallel completes and its "
+         "SUCCEEDED record is merged", [("c", "S"), ("P", "S")], {"P"}, set(), "stops"),
     ]
     out = []
     for desc, chain, completed, done, want in SC:
